@@ -35,6 +35,8 @@ type vfEvtHandler struct {
 	fold      map[string]bool   // peer label -> present
 	last      map[string]string // peer label -> "J"/"L"
 	pending   *vfEvtCall
+	pair      []*vfEvtCall // two concurrent consumers, held between their look at the (empty) log and their wait
+	pairGate  chan struct{}
 	returned  int
 }
 
@@ -131,6 +133,18 @@ func (in *vfC18Inst) Enabled() []string {
 		if h.cancelled {
 			continue
 		}
+		if h.pair != nil {
+			evs = append(evs, "rel2:"+h.name)
+			continue // (no other call on this handler while the pair is out)
+		}
+		if h.pending == nil && in.variant == "pair" {
+			if logs == nil {
+				_, logs = in.truth()
+			}
+			if logs[h.name] == 0 {
+				evs = append(evs, "next2:"+h.name)
+			}
+		}
 		if h.pending == nil {
 			evs = append(evs, "next:"+h.name)
 			// (only with something in the log: on an empty log the call chooses between a stale wake-up signal and
@@ -174,6 +188,90 @@ func (in *vfC18Inst) startNext(h *vfEvtHandler) {
 		}
 		c.done <- k + ":" + vfName(ev.Peer)
 	}()
+}
+
+// vfHoldCtx is a context whose Done() parks until the gate opens. NextPeerEvent evaluates ctx.Done() as an operand of
+// its select, i.e. after it has found the log empty and released the lock and before it waits for the wake-up
+// signal: a consumer is held exactly in the window in which a signal can pass it by.
+type vfHoldCtx struct {
+	context.Context
+	gate chan struct{}
+}
+
+func (c *vfHoldCtx) Done() <-chan struct{} {
+	<-c.gate
+	return c.Context.Done()
+}
+
+// startPair starts two concurrent NextPeerEvent calls on one handler, both held in that window.
+func (in *vfC18Inst) startPair(h *vfEvtHandler) {
+	h.pairGate = make(chan struct{})
+	for i := 0; i < 2; i++ {
+		ctx, cancel := context.WithCancel(context.Background())
+		c := &vfEvtCall{cancel: cancel, done: make(chan string, 1)}
+		h.pair = append(h.pair, c)
+		hc := &vfHoldCtx{Context: ctx, gate: h.pairGate}
+		go func() {
+			ev, err := h.h.NextPeerEvent(hc)
+			if err != nil {
+				c.done <- "err"
+				return
+			}
+			k := "J"
+			if ev.Type == PeerLeave {
+				k = "L"
+			}
+			c.done <- k + ":" + vfName(ev.Peer)
+		}()
+	}
+}
+
+// feed applies one returned event to the handler's monitor.
+func (in *vfC18Inst) feed(h *vfEvtHandler, r string) string {
+	kind, who, _ := strings.Cut(r, ":")
+	h.returned++
+	prev := h.last[who]
+	if (prev == "" && kind != "J") || prev == kind {
+		in.x.violation("c18:alternation", fmt.Sprintf("handler %s returned %s for peer %s after %q: events must alternate starting with join", h.name, kind, who, prev))
+	}
+	h.last[who] = kind
+	if kind == "J" {
+		h.fold[who] = true
+	} else {
+		delete(h.fold, who)
+	}
+	return h.name + "=" + r
+}
+
+// releasePair lets the two held consumers go on to wait (or to find what has been logged meanwhile); whoever is still
+// waiting at quiescence although the log is not empty has lost its wake-up.
+func (in *vfC18Inst) releasePair(h *vfEvtHandler) {
+	close(h.pairGate)
+	synctest.Wait()
+	var obs2 []string
+	left := 0
+	for _, c := range h.pair {
+		select {
+		case r := <-c.done:
+			c.cancel()
+			if r != "err" {
+				obs2 = append(obs2, in.feed(h, r))
+			}
+		default:
+			left++
+		}
+	}
+	if left > 0 {
+		_, logs := in.truth()
+		if logs[h.name] > 0 {
+			in.x.violation("c18:lost-wakeup", fmt.Sprintf("%d of two concurrent NextPeerEvent calls on %s are blocked at quiescence although %d event(s) are logged (returned so far: %v)", left, h.name, logs[h.name], obs2))
+		}
+		for _, c := range h.pair {
+			c.cancel() // the ones still waiting are withdrawn
+		}
+		synctest.Wait()
+	}
+	h.pair, h.pairGate = nil, nil
 }
 
 // harvest collects a completed pending call and feeds the per-handler monitor.
@@ -307,6 +405,11 @@ func (in *vfC18Inst) Apply(evFull string, judge bool) string {
 			in.n.label(unsafe.Pointer(h), eh.name)
 			in.handlers = append(in.handlers, eh)
 		}
+	case "next2":
+		// two concurrent consumers on one handler, both past their look at the empty log and not yet waiting
+		in.startPair(in.handler(arg))
+	case "rel2":
+		in.releasePair(in.handler(arg))
 	case "next":
 		in.startNext(in.handler(arg))
 	case "nextdead":
@@ -358,7 +461,7 @@ func (in *vfC18Inst) Canon() string {
 		}
 		sort.Strings(f)
 		sort.Strings(l)
-		fmt.Fprintf(&sb, "\n%s: cancelled=%v fold=%v last=%v pending=%v", h.name, h.cancelled, f, l, h.pending != nil)
+		fmt.Fprintf(&sb, "\n%s: cancelled=%v fold=%v last=%v pending=%v pair=%v", h.name, h.cancelled, f, l, h.pending != nil, h.pair != nil)
 	}
 	return sb.String()
 }
@@ -368,6 +471,9 @@ func (in *vfC18Inst) Finish(judge bool) string {
 	// drain every live handler, then compare the fold with the ground truth
 	var obs []string
 	for _, h := range in.handlers {
+		if h.pair != nil {
+			in.releasePair(h)
+		}
 		if h.cancelled {
 			if h.pending != nil {
 				h.pending.cancel()
@@ -433,6 +539,9 @@ func vfC18Cfg(r *vfRun, router, variant string) *vfExploreCfg {
 	if variant == "partial" {
 		depth-- // (... or with one more event in the alphabet: peer a re-announcing itself with the partial-message options)
 	}
+	if variant == "pair" {
+		depth-- // (... or with two concurrent consumers held in the window between looking and waiting)
+	}
 	return &vfExploreCfg{
 		Scenario: map[string]any{"router": router, "variant": variant},
 		Name:     name,
@@ -454,6 +563,9 @@ func init() {
 			}
 			if _, ok := r.nextCase(); ok {
 				vfExplore(r, vfC18Cfg(r, "flood", "partial"))
+			}
+			if _, ok := r.nextCase(); ok {
+				vfExplore(r, vfC18Cfg(r, "flood", "pair"))
 			}
 		},
 		replay: func(r *vfRun, raw json.RawMessage) {
